@@ -8,7 +8,8 @@ PLAN = {'shipped': True, 'io': ['none']}
 
 
 def spec(tier):
-  s = [(1, eg.T21 + eg.U, 'allx', 'one'), (2, eg.T21 + eg.U, 'all', 'one'),
+  s = [(1, eg.T21 + eg.U, 'allx', 'one'),
+       (2, eg.T21 + eg.U, 'all' if tier == 'quick' else 'allx', 'one'),
        (3, eg.TTOPO, 'first', 'one')]
   if tier == 'thorough':
     s.append((3, eg.TTOPO + ['STRIDED_SLICE', 'SOFTMAX', 'MUL'], 'first', 'one'))
